@@ -147,10 +147,25 @@ def tool(chk, w):
             pushes = [bb for n, v in calls.items() if n == extra for bb, _ in v if bb in loops[h] and abb in C.blocks_defining_operand(b, bb, 1)]
             must += pushes[:1]
             chk.ob("R19.3", "tool:replace:record-pushed", len(pushes) == 1, "the record built by WordWeightRecord::new is pushed at %s (expected exactly one push of it into the new dictionary)" % pushes, site=C.site(b, abb))
-        skip = [m for m in must if cf.paths_avoiding(h, h, {m})]
-        chk.ob("R19.3", "tool:%s:every-record-kept" % what, not skip,
-               "an iteration of the %s loop of manipulate_model can complete without reaching %s: records are dropped silently, so dump followed by replace is not lossless "
-               "(and a dropped record is never validated)" % (what, [C.site(b, m) for m in skip]), site=C.site(b, h), sample={"loop": h, "must": must})
+        # path-sensitive: one abstract iteration of the record loop; every path that comes back to the loop header with an
+        # item must have gone through the calls in `must` (a failing record leaves the tool with an error instead)
+        it = absint.Interp(w, b, models=effects.EXTRA_MODELS, summaries=C.summaries(w))
+        pre = [o for o in it.run(0, stop=[h]) if o.kind == "stop"]
+        skip = []
+        n_back = 0
+        if pre:
+            for o in it.run(h, stop=set(cf.blocks) - loops[h], env=pre[0].env, cons=pre[0].cons, stop_at_entry_again=True, trace=pre[0].trace):
+                if o.kind != "stop" or o.info != h:
+                    continue
+                item = o.cons.get("ret:%d" % h)
+                if not item or item[2] != "Some":
+                    continue
+                n_back += 1
+                seen_bbs = {e[1] for e in o.trace[len(pre[0].trace):] if e[0] == "call"}
+                skip += [m for m in must if m not in seen_bbs and m not in skip]
+        chk.ob("R19.3", "tool:%s:every-record-kept" % what, not skip and n_back > 0,
+               "an iteration of the %s loop of manipulate_model can complete without reaching %s (%d completing path(s)): records are dropped silently, so dump followed by replace is not lossless "
+               "(and a dropped record is never validated)" % (what, [C.site(b, m) for m in skip], n_back), site=C.site(b, h), sample={"loop": h, "must": must, "paths": n_back})
     # ---- R19.3
     ser = one("Writer::serialize")
     des = one("Reader::deserialize")
@@ -184,8 +199,9 @@ def tool(chk, w):
     pty = ps[0][1]["callee"].get("generic", "") if ps else ""
     # formatting side: the closure mapping weights to strings
     fty = set()
-    for k, bs in w.bodies.items():
-        if k.startswith("manipulate_model::main::{closure") and "#promoted" not in k:
+    for k in C.closure_keys(w, "manipulate_model::main"):
+        bs = w.bodies[k]
+        if True:
             for bb, t in cfgmod.calls(bs[0]):
                 if (cfgmod.callee(t) or "").endswith("to_string"):
                     fty.add(t["callee"].get("generic", ""))
